@@ -19,7 +19,7 @@ TEXTS = ['Ok', '', 'x', 'two words', 'line1\r\nline2', 'line1\nline2', 'a\r\n\r\
          '2.1.5 looks like esc', '5.7.1 Denied', '4.0.0', '2.0.0 a\r\n2.0.0 b', '9.9.9 not an esc class',
          '2.1 short', 'unicodé ✓ \U0001f600', '250-looks like a continuation', '250 looks like a reply',
          'tab\there', 'cr\ronly', 'dash-', '-dash', 'a\r\n b indented continuation', 'x' * 600,
-         '1.2.3 one', '2.1000.5 long', '5.5.5555 long'] + (['a\r\nb\r\nc\r\nd', 'é', ' nbsp first'] if THOROUGH else [])
+         '1.2.3 one', '2.1000.5 long', '5.5.5555 long'] + (['a\r\nb\r\nc\r\nd', 'é', 'x\u00a0nbsp inside'] if THOROUGH else [])
 ESCS = [None, False, 'code-class']         # default derivation, disabled, explicit <class>.1.5
 SEGS = [[4096], [1], [2], [3, 5], [7]] + ([[4, 1, 1, 9], [6, 3]] if THOROUGH else [])
 failures = []
@@ -138,7 +138,7 @@ def check_seq(seq, seg):
 for (r, w) in replies:
     for seg in SEGS:
         check_seq([(r, w)], seg)
-sample = replies[::(3 if THOROUGH else 11)]
+sample = replies[::(5 if THOROUGH else 11)]
 for a in sample:
     for b in sample:
         for seg in ([4096], [1], [3, 5]):
